@@ -109,6 +109,11 @@ class Sem:
         # math mode
         if src.lo >= dst.lo and src.hi <= dst.hi:
             return v
+        if getattr(self, 'strict', False) and self.ob:
+            # strict mode (per contract): a conversion that would change the value is an obligation, not a wrap;
+            # the value then passes through unchanged
+            self.ob('value_preserving_conversion(%s)' % dst.name.replace(' ', '_'), z3.And(v >= dst.lo, v <= dst.hi))
+            return v
         if not dst.signed:
             return v % (1 << dst.width)
         # conversion to a signed type that cannot represent the value: implementation-defined in C,
@@ -160,6 +165,9 @@ class Sem:
                     if self.ob:
                         self.ob('signed_overflow_%s%s' % ({'+': 'add', '-': 'sub', '*': 'mul'}[op], what),
                                 z3.And(r >= ct.lo, r <= ct.hi))
+                    return r
+                if getattr(self, 'strict', False) and self.ob:
+                    self.ob('unsigned_wrap_%s%s' % ({'+': 'add', '-': 'sub', '*': 'mul'}[op], what), z3.And(r >= 0, r < M))
                     return r
                 return r % M
             if op == '/':
